@@ -35,6 +35,20 @@ Definition str_max (l : list string) : res string :=
   | x :: t => ok (fold_left (fun m y => if str_ltb m y then y else m) t x)
   end.
 
+(* max(versions, key = (0, int(v)) if v.isdigit() else (1, v)): numeric versions by value, others after them by string *)
+Definition ver_ltb (a b : string) : bool :=
+  match isdecimal a, isdecimal b with
+  | true, true => (digits_val a 0 <? digits_val b 0)%Z
+  | true, false => true
+  | false, true => false
+  | false, false => str_ltb a b
+  end.
+Definition ver_max (l : list string) : res string :=
+  match l with
+  | [] => fail EValue
+  | x :: t => ok (fold_left (fun m y => if ver_ltb m y then y else m) t x)
+  end.
+
 Definition val_eqb_strs (a b : val) : bool :=
   match a, b with
   | VList x, VList y =>
@@ -77,7 +91,7 @@ Definition one_meta (d : datadir) (meta_relpath : string) : res (list (string * 
   | (_, ft0, _, _) :: _ =>
     if forallb (fun v => val_eqb_strs (snd (fst (fst v))) ft0) vers then
       let version_info := sort_items (fold_left (fun acc v => assoc_set (fst (fst (fst v))) (snd v) acc) vers []) in
-      do latest <- str_max (map fst version_info);
+      do latest <- ver_max (map fst version_info);
       let bs := snd (fst (last vers (EmptyString, VNone, VNone, VNone))) in
       do description <- vfield "description" bs;
       do tags <- vfield "tags" bs;
